@@ -4,11 +4,15 @@
   A shape kind is served by giving its `StyledView` (what the streams observe of a styled shape)
   as a function of the translation applied to the primitive; the result lines are formatted from
   the view exactly as `execute` in m_styled.rs formats the real results. Kinds without a model
-  return `none` (printed `skip`). Modelled kinds: `rect` (EG.Model.StyledRect).
+  return `none` (printed `skip`). Modelled kinds: `rect` (EG.Model.StyledRect), `circle`, `ellipse`,
+  `rrect` (EG.Model.Circle / Ellipse / RoundedRect).
 -/
 import EG.Driver.Util
 import EG.Model.StyledRect
 import EG.Model.CallTranslate
+import EG.Model.Circle
+import EG.Model.Ellipse
+import EG.Model.RoundedRect
 namespace EG.Driver
 open EG
 
@@ -90,6 +94,31 @@ private def rectView (s : Style) (r : Rect) : StyledView :=
     fa := StyledRect.fillArea s r
     sa := StyledRect.strokeArea s r }
 
+private def primStyle (s : Style) : PrimStyle := ⟨s.fill, s.stroke, s.width, s.align⟩
+
+private def circleView (s : Style) (c : Circle) : StyledView :=
+  let st := primStyle s
+  { calls := c.drawStyled st
+    pixels := c.styledPixels st
+    bbox := c.styledBoundingBox st
+    fa := (c.fillArea st).boundingBox
+    sa := (c.strokeArea st).boundingBox }
+
+private def ellipseView (s : Style) (e : Ellipse) : StyledView :=
+  let st := primStyle s
+  { calls := e.drawStyled st
+    pixels := e.styledPixels st
+    bbox := e.styledBoundingBox st
+    fa := (e.fillArea st).boundingBox
+    sa := (e.strokeArea st).boundingBox }
+
+private def rrectView (s : Style) (r : RoundedRect) : StyledView :=
+  { calls := r.drawStyled s
+    pixels := r.styledPixels s
+    bbox := r.styledBoundingBox s
+    fa := (r.fillArea s).boundingBox
+    sa := (r.strokeArea s).boundingBox }
+
 def handleStyled (stream : String) (t : Toks) : Option String :=
   if !stream.startsWith "styled." then none else
   let (kind, t) := t.str
@@ -98,6 +127,24 @@ def handleStyled (stream : String) (t : Toks) : Option String :=
     let (r, t) := t.rect
     let (s, t) := t.style
     styledResult stream (fun d => rectView s (r.translate d)) t
+  | "circle" =>
+    let (p, t) := t.pt
+    let (d0, t) := t.nat
+    let (s, t) := t.style
+    styledResult stream (fun d => circleView s ((⟨p, d0⟩ : Circle).translate d)) t
+  | "ellipse" =>
+    let (p, t) := t.pt
+    let (sz, t) := t.sz
+    let (s, t) := t.style
+    styledResult stream (fun d => ellipseView s ((⟨p, sz⟩ : Ellipse).translate d)) t
+  | "rrect" =>
+    let (r, t) := t.rect
+    let (tl, t) := t.sz
+    let (tr, t) := t.sz
+    let (br, t) := t.sz
+    let (bl, t) := t.sz
+    let (s, t) := t.style
+    styledResult stream (fun d => rrectView s ((⟨r, ⟨tl, tr, br, bl⟩⟩ : RoundedRect).translate d)) t
   | _ => none
 
 end EG.Driver
